@@ -9,13 +9,20 @@ RACE="${1:-0}"
 mkdir -p "$VERIF_BUILD"
 cp "$VERIF_REPO/go.sum" harness/go.sum
 if [ "$VERIF_REPO" != /repo ]; then ( cd harness && go mod edit -replace github.com/a14e/gogreement="$VERIF_REPO" ); fi
-( cd "$VERIF_REPO" && go build -tags verif -o "$VERIF_BUILD/gogreement.new" ./cmd/gogreement ) && mv "$VERIF_BUILD/gogreement.new" "$VERIF_BUILD/gogreement"
-( cd harness && go build -tags verif -o "$VERIF_BUILD/vcheck.new" ./cmd/vcheck ) && mv "$VERIF_BUILD/vcheck.new" "$VERIF_BUILD/vcheck"
+# (a failing build must fail this script: never fall back to a binary of an earlier tree)
+fail() { echo "build.sh: $1 does not build from $VERIF_REPO" >&2; rm -f "$VERIF_BUILD"/*.new; exit 3; }
+( cd "$VERIF_REPO" && go build -tags verif -o "$VERIF_BUILD/gogreement.new" ./cmd/gogreement ) || fail gogreement
+mv "$VERIF_BUILD/gogreement.new" "$VERIF_BUILD/gogreement"
+( cd harness && go build -tags verif -o "$VERIF_BUILD/vcheck.new" ./cmd/vcheck ) || fail vcheck
+mv "$VERIF_BUILD/vcheck.new" "$VERIF_BUILD/vcheck"
 if [ "$RACE" = 1 ] && [ -x /opt/veriftools/go1.26.8/bin/go ]; then
   # the same harness built with the second toolchain (GOROOT outside the module cache): std-library overlay workload of C10
-  ( cd harness && PATH=/opt/veriftools/go1.26.8/bin:$PATH GOTOOLCHAIN=local go build -tags verif -o "$VERIF_BUILD/vcheck-std.new" ./cmd/vcheck ) && mv "$VERIF_BUILD/vcheck-std.new" "$VERIF_BUILD/vcheck-std"
+  ( cd harness && PATH=/opt/veriftools/go1.26.8/bin:$PATH GOTOOLCHAIN=local go build -tags verif -o "$VERIF_BUILD/vcheck-std.new" ./cmd/vcheck ) || fail vcheck-std
+  mv "$VERIF_BUILD/vcheck-std.new" "$VERIF_BUILD/vcheck-std"
 fi
 if [ "$RACE" = 1 ]; then
-  ( cd "$VERIF_REPO" && go build -race -tags verif -o "$VERIF_BUILD/gogreement-race.new" ./cmd/gogreement ) && mv "$VERIF_BUILD/gogreement-race.new" "$VERIF_BUILD/gogreement-race"
-  ( cd harness && go build -race -tags verif -o "$VERIF_BUILD/vcheck-race.new" ./cmd/vcheck ) && mv "$VERIF_BUILD/vcheck-race.new" "$VERIF_BUILD/vcheck-race"
+  ( cd "$VERIF_REPO" && go build -race -tags verif -o "$VERIF_BUILD/gogreement-race.new" ./cmd/gogreement ) || fail gogreement-race
+  mv "$VERIF_BUILD/gogreement-race.new" "$VERIF_BUILD/gogreement-race"
+  ( cd harness && go build -race -tags verif -o "$VERIF_BUILD/vcheck-race.new" ./cmd/vcheck ) || fail vcheck-race
+  mv "$VERIF_BUILD/vcheck-race.new" "$VERIF_BUILD/vcheck-race"
 fi
